@@ -32,11 +32,19 @@ TimedTaskScheduler::~TimedTaskScheduler() {
 
 void TimedTaskScheduler::kickOffTask(std::shared_ptr<detail::TimedTaskImpl> next, double curTime) {
   size_t remaining = next->timesToRun.fetch_sub(1, std::memory_order_acq_rel);
+  // func may only be called while holding a claim: ~TimedTask destroys it once the task is
+  // cancelled and no claim is outstanding.
   if (remaining == 1) {
-    auto* np = next.get();
-    np->func(std::move(next));
+    // next is not moved into func: this reference keeps the task alive until the claim is released.
+    if (next->tryClaim()) {
+      next->func(next);
+      next->release();
+    }
   } else if (remaining > 1) {
-    next->func(next);
+    if (next->tryClaim()) {
+      next->func(next);
+      next->release();
+    }
 
     if (next->steady) {
       next->nextAbsTime += next->period;
